@@ -829,6 +829,9 @@ fn resolve_names_item_decl(ctx: &mut StaticsContext, symbol_table: &SymbolTable,
                 for variant in &enum_def.variants {
                     for field in &variant.fields {
                         resolve_names_typ(ctx, &symbol_table, &field.ty, false);
+                        if let Some(default_val) = &field.default_val {
+                            resolve_names_expr(ctx, &symbol_table, default_val);
+                        }
                     }
                 }
             }
@@ -1319,6 +1322,13 @@ fn resolve_names_func_helper(
     body: &Rc<Expr>,
     ret_type: &Option<Rc<Type>>,
 ) {
+    // default values are evaluated at the call site, so they are resolved before the
+    // parameters come into scope
+    for arg in args {
+        if let Some(default_val) = &arg.default_val {
+            resolve_names_expr(ctx, symbol_table, default_val);
+        }
+    }
     for arg in args {
         resolve_names_fn_arg(symbol_table, &arg.name);
         if let Some(ty_annot) = &arg.ty {
